@@ -224,6 +224,28 @@ pub fn sample_power(log: &[LogOp], r: &mut Rng, max: usize, all_cuts: bool) -> V
         }
         out.push(CrashSpec::Power { cut, drop, tear, dir_keep });
     }
+    // Systematic part: power fails right after an API call returned and nothing that was not yet
+    // synced survives. This is the durability clause in its plainest form, so it is not left to
+    // the random sample: every acknowledged call that leaves un-synced data behind gets such a cut
+    // (up to max/2 of them, chosen by the seed).
+    let mut acks: Vec<CrashSpec> = Vec::new();
+    for (e, op) in log.iter().enumerate() {
+        if op.kind != Kind::End {
+            continue;
+        }
+        let cut = e + 1;
+        let (data, dir) = disk::unsynced(log, cut);
+        if data.is_empty() && dir.is_empty() {
+            continue;
+        }
+        acks.push(CrashSpec::Power { cut, drop: data, tear: None, dir_keep: 0 });
+    }
+    let keep = if all_cuts { acks.len() } else { (max / 2).max(4) };
+    while acks.len() > keep {
+        let i = r.below(acks.len() as u64) as usize;
+        acks.swap_remove(i);
+    }
+    out.extend(acks);
     out
 }
 
@@ -233,6 +255,9 @@ pub struct Eval<'a> {
     pub root: &'a str,
     pub counter: usize,
     pub stats: CrashStats,
+    /// what the log held when the crash happened: "inserts-pending", "tombstones-only",
+    /// "nothing-pending" (part of the signature of findings about open-time recovery)
+    pub pending_class: String,
 }
 
 pub struct OpenOutcome {
@@ -277,13 +302,13 @@ pub fn observe(mem: &mut Memvid) -> Vec<String> {
 
 impl<'a> Eval<'a> {
     pub fn new(root: &'a str) -> Self {
-        Eval { lenient: false, root, counter: 0, stats: CrashStats::default() }
+        Eval { lenient: false, root, counter: 0, stats: CrashStats::default(), pending_class: String::new() }
     }
 
     /// In-place rewrite paths whose every failure mode is one finding (identified by call site).
     fn sig_for(&self, ctx: &str, class: &str) -> String {
         if ctx.starts_with("open:") {
-            "open:recovery".to_string()
+            format!("open:recovery/{}/{}", self.pending_class, class)
         } else if ctx.ends_with(":inplace-resize") {
             ctx.to_string()
         } else if ctx == "vacuum:after-rename" {
@@ -492,7 +517,8 @@ impl<'a> Eval<'a> {
                     let mut cpn = cp.clone();
                     cpn.nested = chain.clone();
                     if let Some(f) = fail {
-                        let sig = String::new();
+                        let reason: String = f.rsplit(": ").next().unwrap_or("").chars().filter(|c| !c.is_ascii_digit()).take(48).collect::<String>().trim().replace(' ', "-");
+                        let sig = format!("{}/{}:{reason}", self.pending_class, if f.starts_with("panic") { "panic" } else { "open-fails" });
                         out.push((Violation { props: vec!["C04".into()], oracle: "recovery-crash-safe".into(), sig, msg: format!("crash inside recovery {:?} then {:?}: {f}", cp.spec, chain), op: 0 }, cpn.clone()));
                     } else if let Some(fo) = fin_obs {
                         if fo != obs {
@@ -501,7 +527,7 @@ impl<'a> Eval<'a> {
                                 Violation {
                                     props: vec!["C04".into()],
                                     oracle: "recovery-crash-safe".into(),
-                                    sig: String::new(),
+                                    sig: format!("{}/state-differs", self.pending_class),
                                     msg: format!("crash inside recovery {:?} then {:?}: final state differs from uninterrupted recovery at frame {diff}: {:?} vs {:?} ({} vs {} frames)", cp.spec, chain, fo.get(diff), obs.get(diff), fo.len(), obs.len()),
                                     op: 0,
                                 },
@@ -585,6 +611,28 @@ pub fn phase(log: &[LogOp], cut: usize, ops: &[Op]) -> String {
 }
 
 /// Allowed recovered states at a cut of segment `seg`.
+/// What kind of records the embedded log holds un-applied at cut `cut` (see Eval::pending_class).
+pub fn pending_class(w: &World, seg: &Segment, cut: usize, first_op_of_seg_model: &Model, ops: &[Op]) -> String {
+    let (inflight, last_end) = position(&seg.log, cut);
+    let base: Model = match (inflight, last_end) {
+        (Some(i), _) => {
+            if i == 0 { Model::default() } else { w.snaps.get(i - 1).cloned().unwrap_or_default() }
+        }
+        (None, Some(j)) => w.snaps.get(j).cloned().unwrap_or_default(),
+        (None, None) => first_op_of_seg_model.clone(),
+    };
+    let mut ins = base.pending.iter().any(|p| matches!(p, crate::model::POp::Insert(_)));
+    let mut tomb = base.pending.iter().any(|p| matches!(p, crate::model::POp::Tombstone(_)));
+    if let Some(i) = inflight {
+        match ops.get(i) {
+            Some(Op::Put(_)) | Some(Op::PutSteer { .. }) | Some(Op::Update { .. }) | Some(Op::UpdateUri { .. }) => ins = true,
+            Some(Op::Delete { .. }) | Some(Op::DeleteUri { .. }) => tomb = true,
+            _ => {}
+        }
+    }
+    if ins { "inserts-pending" } else if tomb { "tombstones-only" } else { "nothing-pending" }.to_string()
+}
+
 pub fn allowed_states(w: &World, seg: &Segment, cut: usize, first_op_of_seg_model: &Model) -> (Vec<Model>, bool) {
     let (inflight, last_end) = position(&seg.log, cut);
     let snap_after = |i: usize| -> Model { w.snaps.get(i).cloned().unwrap_or_default() };
